@@ -10,6 +10,11 @@ pub type SeqNo = u64;
 /// TRUSTED: Option::flatten
 pub assume_specification<T> [std::option::Option::<std::option::Option<T>>::flatten] (o: std::option::Option<std::option::Option<T>>) -> (r: std::option::Option<T>)
     ensures r == (match o { Some(Some(x)) => Some(x), _ => None });
+/// TRUSTED std contracts of the other Option combinators a high-water mark could be combined with (so that a reformulation stays decidable)
+pub assume_specification<T> [std::option::Option::<T>::or] (a: std::option::Option<T>, b: std::option::Option<T>) -> (r: std::option::Option<T>)
+    ensures r == (match a { Some(x) => Some(x), None => b });
+pub assume_specification<T> [std::option::Option::<T>::xor] (a: std::option::Option<T>, b: std::option::Option<T>) -> (r: std::option::Option<T>)
+    ensures r == (match (a, b) { (Some(x), None) => Some(x), (None, Some(y)) => Some(y), _ => None });
 
 //@ FROM src/range.rs :: - :: fn seqno_filter :: OBL C02.1
 fn seqno_filter(item_seqno: SeqNo, seqno: SeqNo) -> /*+*/(r: /*-*/bool/*+*/) ensures r == (item_seqno < seqno)/*-*/ {
